@@ -62,8 +62,16 @@ fn string_alphabet<V: Variant>() -> Vec<String> {
     out.push(s);
     out.push(format!("T1{}", "g".repeat(V::STRLEN - 2)));
     out.push(" ".repeat(V::STRLEN));
+    // whitespace must not be tolerated on either side
+    out.push(format!("{good} "));
+    out.push(format!(" {good}"));
+    out.push(format!("{good}\n"));
+    out.push(format!("{}\t", &good[2..]));
     out
 }
+
+/// Number of strings in the alphabet (the transcripts index it).
+pub const STRING_ALPHABET_LEN: usize = 38;
 
 pub fn judge_strings<V: Variant>(l: &str, r: &str) -> Result<u64, String> {
     let real = catch(|| V::compare_with(l, r)).map_err(|p| format!("compare_with({l:?}, {r:?}) panicked: {p}"))?;
